@@ -1,6 +1,6 @@
 use crate::{
     emulator::Emulator,
-    error::IoError,
+    error::{IoError, SnapshotLoadError},
     host::{DataRecorder, Host, LoadableAsset, SeekFrom, SeekableAsset},
     zx::{machine::ZXMachine, video::colors::ZXColor},
     Result,
@@ -35,6 +35,11 @@ where
 
     if !is_128k && size < SNA_48K_SIZE {
         return Err(IoError::UnexpectedEof.into());
+    }
+
+    // Snapshot of the other model can't be applied: RAM layouts differ
+    if is_128k != (emulator.settings.machine == ZXMachine::Sinclair128K) {
+        return Err(SnapshotLoadError::MachineNotSupported.into());
     }
 
     let mut header = [0u8; SNA_HEADER_SIZE];
